@@ -1093,7 +1093,7 @@ func appendsFollowedBySortingCallee(rs *ast.RangeStmt) bool {
 // vocabulary, nothing returns anything but false.
 func checkAllExtendsAreIn(res *Result, pkgs []*packages.Package) {
 	const rule = "C15-R7"
-	res.Rule(rule, "Converter.allExtendsAreIn: for parents of the vocabulary being converted 'all converted' is answered only after the loop over the parents has ended (inside the loop their branch can only answer false)")
+	res.Rule(rule, "Converter.allExtendsAreIn: 'all parents converted' is answered only after the loop over the parents has ended — inside the loop, for a parent of this or of another vocabulary, the only possible answer is false (D17)")
 	for _, p := range pkgs {
 		if !strings.HasSuffix(p.PkgPath, "/astool/convert") {
 			continue
@@ -1111,23 +1111,12 @@ func checkAllExtendsAreIn(res *Result, pkgs []*packages.Package) {
 						return true
 					}
 					found = true
-					// the branch for parents of another vocabulary: if len(e.Vocab) != 0 { … }
-					var foreign *ast.BlockStmt
-					ast.Inspect(rs.Body, func(m ast.Node) bool {
-						if ifs, ok := m.(*ast.IfStmt); ok && foreign == nil && strings.Contains(types.ExprString(ifs.Cond), ".Vocab") {
-							foreign = ifs.Body
-						}
-						return true
-					})
 					ast.Inspect(rs.Body, func(m ast.Node) bool {
 						r, ok := m.(*ast.ReturnStmt)
 						if !ok || len(r.Results) != 1 {
 							return true
 						}
-						if foreign != nil && r.Pos() >= foreign.Pos() && r.End() <= foreign.End() {
-							return true
-						}
-						res.check(isIdentNamed(r.Results[0], "false"), rule, "Converter.allExtendsAreIn", relPos(p.Fset, r.Pos()), "inside the loop a parent of this vocabulary can only make the answer false", "returns "+types.ExprString(r.Results[0])+" after looking at one parent: a type with several parents is converted before all of them are")
+						res.check(isIdentNamed(r.Results[0], "false"), rule, "Converter.allExtendsAreIn", relPos(p.Fset, r.Pos()), "inside the loop a parent can only make the answer false", "returns "+types.ExprString(r.Results[0])+" after looking at one parent: a type with several parents is converted before all of them are")
 						return true
 					})
 					return false
